@@ -656,6 +656,8 @@ def parent_of(s, kind, i, where):
         return s.world
     if where == "frame":
         return s.frames["f%s%d" % (kind, i)]
+    if where == "plasma0":
+        return s.plasmas[0]          # a beam riding on the first plasma node (its coordinates follow that plasma)
     return None
 
 
@@ -758,7 +760,7 @@ class SceneMachine(Machine):
     assumptions = [
         "rtol 1e-9 plus an absolute floor of 1e-12*max|reference| (legitimate noise measured <= 5e-15)",
         "scenes always have a geometry, an atomic-data provider and (beams) an attenuator: prerequisites are never unset",
-        "user children of plasma / beam / laser nodes are small emitting spheres away from every bounding volume ('riders'); beams are not parented to plasma nodes",
+        "user children of plasma / beam / laser nodes are small emitting spheres away from every bounding volume ('riders') and beams parented to the first plasma node",
         "user callbacks on plasma.notifier / laser.notifier only re-assign an attribute of another node to its current value and never raise",
         "a model instance is attached to one emitter at a time",
     ]
@@ -1083,7 +1085,7 @@ class SceneMachine(Machine):
             elif kind == "b.transform":
                 op["t"] = gen_transform(rng, toward_origin=True, dist=rng.uniform(1.1, 1.7))
             elif kind == "b.parent":
-                op["to"] = rng.choice(["frame", "world", "frame", "world", "frame", "world", "none"])
+                op["to"] = rng.choice(["frame", "world", "frame", "world", "frame", "world", "none", "plasma0", "plasma0"])
         return op
 
     def _gen_observe(self, rng, spec):
@@ -1605,6 +1607,8 @@ class SceneMachine(Machine):
                 for j, bs in enumerate(sp["beams"]):
                     if bs["plasma"] == i:
                         s.beams[j].plasma = new
+                    if bs["parent"] == "plasma0" and i == 0:
+                        s.beams[j].parent = new          # the user moves what rode on the old node over to the new one
                 if s.laser is not None and sp["laser"]["plasma"] == i:
                     s.laser.plasma = new
                 self._dispose(c, op, old)
@@ -1730,6 +1734,8 @@ class SceneMachine(Machine):
             b.transform = mk_transform(op["t"])
         elif k == "b.parent":
             b.parent = parent_of(s, "b", i, op["to"])
+            if op["to"] == "plasma0":
+                env.probe("beam_parented_to_plasma_node")
         elif k == "b.recreate":
             s.riders.pop(("b", i), None)
             s.free_atts = [fa for fa, f in zip(s.free_atts, sp.get("free_atts", [])) if f["beam"] != i]
